@@ -1,4 +1,5 @@
 import asyncio
+import math
 import sys
 
 from klongpy.core import KGCall, KGFn, KGFnWrapper
@@ -26,11 +27,15 @@ def _call_periodic(loop: asyncio.BaseEventLoop, name, interval, callback):
 
     def run(handle, fn=callback):
         r = fn()
-        if r:
+        # delegate is None when the callback cancelled its own timer
+        if r and handle.delegate is not None:
             if interval == 0:
                 handle.delegate = loop.call_soon(run, handle)
             else:
-                handle.delegate = loop.call_later(interval - ((loop.time() - start) % interval), run, handle)
+                # next boundary after now; a dispatch a hair before a boundary (clock
+                # resolution, float rounding) belongs to that boundary, not the previous one
+                k = math.floor((loop.time() - start + 1e-6) / interval) + 1
+                handle.delegate = loop.call_at(start + k * interval, run, handle)
         else:
             handle.cancel()
 
